@@ -141,7 +141,27 @@ class C16(object):
     def shrink_budget(self, tier):
         return (120, 40.0)
 
+    def _dd_heavy(self, rng, tier):
+        """Every thread keeps calling the process-wide deduplicated function (its table is the one
+        piece of state all threads share), with requests in flight, under frequent pre-emption."""
+        n = rng.randint(3, 6 if tier == "quick" else 12)
+        progs = []
+        for _ in range(n):
+            steps = []
+            for _ in range(rng.randint(2, 4)):
+                leaves = [["dd", rng.randint(0, 5)] for _ in range(rng.randint(1, 3))]
+                if rng.random() < 0.4:
+                    leaves.append(["item", 0, rng.randint(0, 3)])
+                steps.append(["y", [rng.choice(["t", "l"]), leaves]])
+            progs.append({"templates": [{"kind": "fn", "steps": steps}], "root": {"tmpl": 0, "conv": rng.choice(["call", "value"])},
+                          "kinds": 2, "svs": 1, "yield_only": True, "reentry": False, "threaded": True, "debug_kinds": [0, 1],
+                          "faults": {"items": {}, "flushes": {}, "ctx": {}}, "prio": gen.gen_prio(rng, 2)})
+        return {"programs": progs, "seed": rng.randint(0, 10 ** 9), "p_switch": rng.choice([0.05, 0.2, 0.2, 0.5]),
+                "perf": rng.random() < 0.3, "same_thread_names": rng.random() < 0.3}
+
     def gen(self, rng, tier, k):
+        if k % 5 == 2:
+            return self._dd_heavy(rng, tier)
         n = rng.randint(2, 6 if tier == "quick" else 16)
         progs = []
         for _ in range(n):
